@@ -557,4 +557,35 @@ def rule_refcount_twins(P):
     return R
 
 
-RULES = [rule_counter_width, rule_mirror_simplify, rule_swap_loops, rule_image_fire, rule_small_hole_threshold, rule_graph_diagonals, rule_large_hole_threshold, rule_refcount_twins]
+def rule_heap_pop_order(P):
+    """IndexedHeap (the priority queue behind the LOWEST_COST, LOWEST_MEMORY and LARC reordering schedules) keeps a key → slot map next to the heap.
+    pop() moves the last item into slot 0 and records that, and marks the popped key as not in the heap.  With one item left both stores hit the
+    same map entry: the `not in heap` mark must be the later one, or the popped key stays marked as queued and is never queued again"""
+    R = RuleResult("sibling.heap-pop-order", "in every instantiation of IndexedHeap::pop the store `_indices[popped key] = NOT_IN_HEAP` is not followed by another store to _indices (it is the one that must win when the two keys coincide)")
+    n = 0
+    for f in sorted(P.fns.values(), key=lambda f: (f["file"], f["line"], f["inst"])):
+        if not f.get("cfg") or "IndexedHeap" not in f["q"] or not f["q"].endswith("::pop"):
+            continue
+        g = Graph(f)
+        stores = [k for k in g.nodes if k.kind == "store" and k.ev["member"].endswith("::_indices")]
+        clear = [k for k in stores if re.sub(r"\s+", "", k.ev.get("rhs", "")) == "NOT_IN_HEAP"]
+        if len(clear) != 1 or len(stores) < 2:
+            raise AnalysisBroken("sibling.heap-pop-order: %s: expected one NOT_IN_HEAP store and a slot store to _indices, found %d / %d" % (f["inst"], len(clear), len(stores)))
+        n += 1
+        R.functions.add(f["inst"])
+        R.paths += 1
+        iid = "%s: the not-in-heap mark is the last store to the index map" % f["inst"][:70]
+        later = [k for k in stores if k.id != clear[0].id and g.path(clear[0], lambda x, k=k: x.id == k.id) is not None]
+        if not later:
+            R.ok(iid, where(f, clear[0].line))
+        else:
+            R.fail(iid, where(f, clear[0].line), Finding(R.rule, f["file"], base_name(f["q"]), "clear-then-move",
+                   "`%s = NOT_IN_HEAP` is followed by `%s = %s`: when one item is left the two keys are the same and the popped key ends up marked as still queued; a later push of it only updates a weight and the reordering schedule loses a pending inversion" % (
+                       clear[0].ev.get("lhs"), later[0].ev.get("lhs"), later[0].ev.get("rhs")), clear[0].line))
+    if n < 1:
+        raise AnalysisBroken("sibling.heap-pop-order: IndexedHeap::pop not found")
+    R.require_floor(1, "heap pop")
+    return R
+
+
+RULES = [rule_counter_width, rule_mirror_simplify, rule_swap_loops, rule_image_fire, rule_small_hole_threshold, rule_graph_diagonals, rule_large_hole_threshold, rule_refcount_twins, rule_heap_pop_order]
